@@ -508,6 +508,7 @@ def run(ctx):
     char_literal_values(ctx)
     digit_strings(ctx)
     implicit_enumerators(ctx)
+    literal_narrowing(ctx)
 
     # ------------------------------------------------------------ R07.6
     n_c = 0
@@ -876,4 +877,36 @@ def implicit_enumerators(ctx):
             ok = plus_one(args[0]) and G.gated(fn, c, G.edges_where(fn, type_is("T_integer", "_type")))
             ctx.ob("R07.9", "add_element|integer-successor", ok, fn.loc(c), "`%s` is %spredecessor + 1 behind `predecessor is an integer literal`" % (show(c)[:60], "" if ok else "NOT "))
     ctx.floor("R07.9", "implicit-value constructions", n, 3)
+
+
+
+
+def literal_narrowing(ctx):
+    """R07.11: the evaluator computes in `int` (Result::_u._integer) while an integer literal is kept as unsigned long
+    long.  The T_integer arm converts one into the other; without a range test a literal beyond INT_MAX is recorded as
+    a different number (0xFFFFFFFF -> -1, 0x100000000 -> 0) instead of as `not evaluated`."""
+    db = ctx.db
+    ctx.rule("R07.11", "evaluate() turns an integer literal (unsigned long long) into the int it computes with only behind a test that it fits")
+    ev = db.fn("CPPExpression::evaluate")
+    rets = []
+    for r in ev.walk():
+        if r.get("k") != "ret" or r.get("e") is None:
+            continue
+        casts = [x for x in walk(r["e"]) if x.get("k") == "cast" and x.get("ty") == "int" and any(y.get("k") == "mem" and y.get("n", "").endswith("_u._integer") or (y.get("k") == "mem" and y.get("n", "").endswith("::_integer")) for y in walk(x))]
+        if casts and "CPPExpression" in show(r) or casts:
+            arm = [y for y in walk(r["e"]) if y.get("k") == "mem" and y.get("n", "").endswith("_integer") and "Result" not in y.get("n", "")]
+            if arm:
+                rets.append(r)
+    if not rets:
+        ctx.broken("evaluate(): the T_integer arm `return Result((int)_u._integer)` not found")
+
+    def fits(atom, truth):
+        c = G.cmp_atom(atom)
+        if not c:
+            return False
+        return any(y.get("k") == "mem" and y.get("n", "").endswith("_integer") and "Result" not in y.get("n", "") for side in (c[1], c[2]) if side is not None for y in walk(side))
+    edges = G.edges_where(ev, fits)
+    for r in rets[:1]:
+        ok = G.gated(ev, r, edges)
+        ctx.ob("R07.11", "evaluate|T_integer|narrowing-checked", ok, ev.loc(r), "`%s` is %sbehind a range test of the literal" % (show(r)[:50], "" if ok else "NOT "))
 
